@@ -154,6 +154,24 @@ func (e *Engine) verifyFunc(fi *FuncInfo) *FuncResult {
 		}
 	}
 	c.entryArgs = bind
+	// what a generated test needs to call this function with a solver model (replay.go)
+	if c.inlineTag == "" {
+		ri := &ReplayInfo{Fi: fi}
+		if rv != nil {
+			ri.Recv = &replayParam{Name: rv.Name(), Val: bind[rv.Name()], Ty: rv.Type()}
+		}
+		okNames := true
+		for _, p := range ps {
+			if p == nil || p.Name() == "" || p.Name() == "_" {
+				okNames = false
+				break
+			}
+			ri.Params = append(ri.Params, &replayParam{Name: p.Name(), Val: bind[p.Name()], Ty: p.Type()})
+		}
+		if okNames && (rv == nil || (rv.Name() != "" && rv.Name() != "_")) {
+			c.replayInfo = ri
+		}
+	}
 	for _, r := range rs {
 		if r != nil {
 			st.vars[r] = env.zero(r.Type())
@@ -555,11 +573,11 @@ func (env *Env) lockOp(recvExpr ast.Expr, op string, st *State, pos token.Pos) {
 // listed in the trusted base) to a fresh entry state.
 func (c *Ctx) assumeAxioms(st *State, pkg *packages.Package) {
 	for _, l := range c.e.lemmas {
-		if !l.Axiom || l.Pkg != pkg {
+		if !(l.Axiom || l.Bridge) || l.Pkg != pkg || "lemma."+l.Name == c.fi.Key || (l.Bridge && c.bv) {
 			continue
 		}
 		env := &Env{c: c, pkg: &pkgRef{info: l.Pkg.TypesInfo, types: l.Pkg.Types, files: l.Pkg.Syntax}, contract: true, bound: map[string]Val{}, noSafety: true}
-		var binders, bnames []string
+		var binders, bnames, rangeGuards []string
 		ok := true
 		for _, p := range l.Params {
 			te, err := parser.ParseExpr(p.Type)
@@ -575,6 +593,9 @@ func (c *Ctx) assumeAxioms(st *State, pkg *packages.Package) {
 			bn := c.freshBound(p.Name)
 			binders = append(binders, fmt.Sprintf("(%s %s)", bn, env.sortOf(t)))
 			bnames = append(bnames, bn)
+			if lo, hi, isInt := intRange(t); isInt {
+				rangeGuards = append(rangeGuards, app("<=", smtInt(lo), bn), app("<=", bn, smtInt(hi)))
+			}
 			env.bound[p.Name] = Val{T: bn, Ty: t}
 			env.qvars = append(env.qvars, fmt.Sprintf("(%s %s)", bn, env.sortOf(t)))
 			env.qnames = append(env.qnames, bn)
@@ -611,8 +632,12 @@ func (c *Ctx) assumeAxioms(st *State, pkg *packages.Package) {
 				st.assumeOnce(ex)
 			}
 		}
-		st.assume(wrap(implies(and(pre...), and(post...))))
-		c.trust("axiom " + l.Name + " (assumed): " + l.Ensures[0].Text)
+		st.assume(wrap(implies(and(append(rangeGuards, pre...)...), and(post...))))
+		if l.Bridge {
+			c.trust("bit-vector lemma " + l.Name + " (proved by the solver over 64-bit vectors) is used as a fact about the uninterpreted integer bit operations of the same values")
+		} else {
+			c.trust("axiom " + l.Name + " (assumed): " + l.Ensures[0].Text)
+		}
 	}
 }
 
@@ -686,6 +711,7 @@ func (c *Ctx) checkReturn(fi *FuncInfo, con *Contract, rstate, entrySnap *State,
 			g := post.evalBool(en.Expr, rstate)
 			c.curGroup = en.Group
 			c.addObl(rstate, fmt.Sprintf("post#%d@ret%d", k, ri), "post", g, c.e.pos(fi.Decl.Pos()), "ensures "+en.Text, en.Props)
+			c.obls[len(c.obls)-1].ClauseAST = en.Expr
 			c.curGroup = ""
 		}
 		if con.HasMod {
